@@ -6,6 +6,7 @@ recorders; scripts give per-tick duration, return value and action; the World de
 dispatch latency of every deadline (exactly on it, within clock resolution before it, later).
 Oracle: reference model of an ideal periodic timer evaluated over the recorded tick log.
 """
+import traceback
 import math
 
 from sim.simloop import SimLoop
@@ -32,7 +33,8 @@ REAL_STUB = {
 }
 EXPECTED_PROBES = ["probe_dispatch_exact", "probe_dispatch_early", "probe_dispatch_late_gt_interval", "probe_slow_callback_skips_boundary",
                    "probe_cancel_self_in_callback", "probe_cancel_other", "probe_external_cancel_live", "probe_external_cancel_dead",
-                   "probe_redefine", "probe_callback_raised", "probe_interval0", "probe_true_return_other_than_1",
+                   "probe_redefine", "probe_callback_raised", "probe_interval0", "probe_true_return_other_than_1", "probe_true_return_that_is_a_list_or_string",
+                   "probe_false_return_that_is_an_empty_list_or_string",
                    "probe_callback_name_rebound_to_value", "probe_tick_while_name_holds_a_value",
                    "probe_callback_function_known_under_another_name_before", "probe_timer_whose_handle_is_not_kept",
                    "probe_computed_interval", "probe_timer_created_again_after_raise", "probe_timer_created_again_after_stop", "probe_timerc_after_callback_raised", "probe_callback_left_through_a_base_exception",
@@ -103,11 +105,18 @@ def scenario(ch, cfg):
         for k in range(nt):
             dur = ch.weighted([5, 2, 1, 1], "dur")           # 0, 0.3i, 1.0i, 2.5i
             # "true" is any Klong-true number, not only 1
-            ret = [1, 1, 2, 0.5, -1][ch.draw(5, "trueval")] if k < nt - 1 else 0
+            # ... and any Klong-true value at all: a non-empty list (also [0]), a non-empty string - what :[c;a;b] takes for true
+            ret = [1, 1, 2, 0.5, -1, 1, 1, "L12", "L0", "S"][ch.draw(10, "trueval")] if k < nt - 1 else 0
             if ret != 1 and ret:
                 stats["probe_true_return_other_than_1"] += 1
+            if isinstance(ret, str):
+                stats["probe_true_return_that_is_a_list_or_string"] += 1
             if ch.chance(1, 10, "earlystop"):
                 ret = 0
+            if ret == 0 and ch.chance(1, 4, "falseval"):
+                # Klong-false other than 0: the empty list, the empty string
+                ret = ch.pick(["E", "ES"], "falsekind")
+                stats["probe_false_return_that_is_an_empty_list_or_string"] += 1
             act = ch.weighted([10, 2, 2 if ntimers > 1 else 0, 1, 1], "act")   # none, cancel self, cancel other, raise, cancel self twice
             script.append({"dur": [0.0, 0.3, 1.0, 2.5][dur] * (interval or 1), "ret": ret, "act": act})
         # the interval as the program writes it: a literal, or something computed (a numpy integer, a whole real)
@@ -146,12 +155,16 @@ def scenario(ch, cfg):
         T = timers[tid]
         e = T["ticks"][-1]
         e["end"] = w.now
-        r = e["sc"]["ret"]
+        spec = e["sc"]["ret"]
+        r = 0 if spec in (0, "E", "ES") else 1           # Klong's truth of the value
         e["ret"] = r
         if not r and T["stopped_at"] is None:
             T["stopped_at"] = ("ret0", len(T["ticks"]) - 1, w.now)
         loop.call_soon(probe, tid, len(T["ticks"]) - 1)
-        return r
+        if isinstance(spec, str):
+            import numpy as np
+            return {"L12": np.array([1, 2]), "L0": np.array([0]), "S": "go", "E": np.array([]), "ES": ""}[spec]
+        return spec
 
     def rc(x, y, z):
         """records the result z of a .timerc on timer x issued by y."""
@@ -405,7 +418,13 @@ def scenario(ch, cfg):
             # loser fails on the loop, after its callback had returned false - logged by asyncio, nothing ticks: a diagnostic
             stats["probe_cancel_race_exception_on_loop"] += 1
             return
+        tb = traceback.extract_tb(exc.__traceback__) if exc is not None else []
+        if tb and tb[-1].filename.endswith("sys_fn_timer.py"):
+            # the periodic runner itself failed on what an (unfailing) callback returned
+            runner_errors.append(f"{type(exc).__name__}: {str(exc)[:120]}")
+            return
         loop_errors.append(f"{ctx.get('message')}: {exc!r}")
+    runner_errors = []
     loop.set_exception_handler(on_loop_exception)
     loop.start()
     reason = w.run(max_time=t0 + 400.0)
@@ -413,6 +432,9 @@ def scenario(ch, cfg):
         w.shutdown()
         raise HarnessError(f"unexpected exception on the loop: {loop_errors[:2]}")
     # ----- oracle
+    if runner_errors:
+        violations.append({"sig": "C15:runner-fails-on-the-value-a-callback-returned", "msg": f"the periodic runner raised {runner_errors[0]} after a callback "
+                           f"that returned normally (return values of the scripts: {[[s['ret'] for s in T['script']] for T in timers]})"})
     if forget and len(ff["ticks"]) != 3:
         violations.append({"sig": "C15:timer-without-kept-handle-does-not-tick", "msg": f'.timer("ff";1;cbff) as a statement (handle not kept), callback true '
                            f"twice then false: expected 3 invocations, saw {len(ff['ticks'])} at {ff['ticks']} (created at {ff['start']!r}, run ended {w.now!r})"})
